@@ -1,5 +1,6 @@
 """C01 - see MANIFEST below and DESIGN.md section 4/C01."""
 from checks import pfcp_common as pc
+from checks import rmfail_phase
 
 MANIFEST = dict(
     text="Kernel-checked for ALL histories, failure oracles and Reset iteration orders: every rule in the (model) data plane belongs to a live session and is in that session's recorded id set (containment, part of the world invariant proved preserved by every step); Sess.Close withdraws every rule of the session assuming only containment, i.e. also after failed installations (close_withdraws, for the Close order regenerated from node.go); every session end goes through delete_sess whose post-condition (slot released, no rule left, other sessions and their rules untouched) is proved; Update/Remove/Query for ids the session has not recorded never reach the driver. Tie: differential run of the model vs the real handlers with a model data plane that fails scripted create/update/query calls; monitors on the trace.",
@@ -15,4 +16,4 @@ N_QUICK, N_THOROUGH = 120, 3000
 
 def run(ctx, replay=None):
     return pc.run_property(ctx, "C01", pc.mon_c01, GEN, N_QUICK, N_THOROUGH, replay=replay, rule=RULE,
-                           assumptions=[pc.PFCP_NOTE], finding_sig=pc.sig_c05, directed=pc.directed_c05)
+                           assumptions=[pc.PFCP_NOTE], finding_sig=pc.sig_c05, directed=pc.directed_c05, extra_phase=rmfail_phase.phase("C01"))
